@@ -128,6 +128,14 @@ ANY suspended program (also programs that are not the parser's). -/
 /-- the parser model with the stop-annotations erased is the parser model of `Model/Parser` -/
 theorem annotated_parser_is_the_parser (f : Nat) : (S.topLoop f).erase = topLoop f := erase_topLoop f
 
+/-- a coroutine stays suspended exactly when `ParseTokens` answers "more input needed"; it is
+blocked in a waiting instruction (whose reaction to `stop()` is what `stopNow` executes) -/
+theorem suspended_iff_more {α : Type} (p : SProg α) (s : PState) :
+    (residual p s).isSome = (run p.erase s).1.isMore ∧ (∀ κ, residual p s = some κ → κ.isWait = true) :=
+  residual_iff_more p s
+
+example : (residual (S.topLoop 16) (PSt.fresh.resetAddNewInput "(a (".toList).pstate).isSome = true := by decide +kernel
+
 /-- **`abandoned_parse_consumes_nothing`.** After `ResetAddNewInput(piece)` the input of the
 lexer is exactly `piece`, every other lexer field is as in a new lexer, the reply accumulator is
 empty and no coroutine is left — whatever parse was suspended, wherever it was suspended: the
@@ -186,8 +194,7 @@ theorem good_orders_agree (p : PSt) (piece : List Char) :
     (∀ l ∈ resetAddOrders, p.exec piece l = p.resetAddNewInput piece) ∧
     (∀ l ∈ resetOrders, p.exec piece l = p.reset) := by
   have hco : p.stop.co = none := by unfold PSt.stop; split <;> rfl
-  simp [resetAddOrders, resetOrders, PSt.exec, PSt.step, PSt.resetAddNewInput, PSt.reset, reset_eq_init,
-    LexState.reset, hco]
+  simp [resetAddOrders, resetOrders, PSt.exec, PSt.step, PSt.resetAddNewInput, PSt.reset, LexState.reset, hco]
 
 /-- all insertions of `x` into a list; all permutations of a list (core has none) -/
 def insertAll {α : Type} (x : α) : List α → List (List α)
@@ -240,8 +247,10 @@ theorem stop_stops : "call:stop" ∈ Generated.ResetOrder.parserStop := by decid
 /-- **Full statement, NOT proved** (compared on every `parse h` op: the driver computes both and
 answers `MODELS-DISAGREE` when they differ): the parser driven call by call gives what the
 delivery model of `Model/Parser` (pieces known in advance) gives, so `parse_chunks_eq_whole`
-transfers to the call-by-call protocol. The proved parts are `residual_stops_more` /
-`resume_is_rest_of_run` in `Proofs/Abandon` (the suspended program IS the rest of the run). -/
+transfers to the call-by-call protocol. Proved parts: `annotated_parser_is_the_parser` (both run
+the same program) and `suspended_iff_more` (a coroutine is kept exactly when the answer is `more`).
+Missing: that resuming the kept program with the next piece continues the run of the whole (the
+fuel a NEW `ParsingIter` gets after a `done` differs from what is left of the first one's). -/
 def StepwiseIsRun : Prop :=
   ∀ (p : PSt) (cs : List (List Char)),
     let r := (p.parseBy (fuelFor cs) .resetAdd cs).1
